@@ -399,7 +399,9 @@ func (txn *Txn[T]) Prefix(key index.Key) *Iterator[T] {
 		}
 		node = node.children[getBitAt(data, node.prefixLen())]
 	}
-	if node == nil {
+	if node == nil || matchLen < prefixLen {
+		// No node, or the closest node diverges from the search prefix
+		// before all of its bits were matched: nothing is covered by it.
 		return nil
 	}
 	return &Iterator[T]{start: node}
